@@ -249,6 +249,19 @@ func extractCodecWith(p *packages.Package, fd *ast.FuncDecl, writer bool, paramV
 		return w.fn
 	}
 	if w.recv == nil {
+		// the struct the function returns (a constructor-style codec of a type of another package)
+		var resultNamed *types.Named
+		if fobj, ok := w.info.Defs[fd.Name].(*types.Func); ok {
+			if sig, ok := fobj.Type().(*types.Signature); ok && sig.Results().Len() >= 1 {
+				if nt, ok := derefNamedStruct(sig.Results().At(0).Type()); ok {
+					resultNamed = nt
+				}
+			}
+		}
+		ownOrResult := func(nt *types.Named) bool {
+			return nt.Obj().Pkg() == p.Types || (resultNamed != nil && types.Identical(nt, resultNamed))
+		}
+		_ = ownOrResult
 		// constructor-style reader: `var x T` of a struct type declared in this package
 		ast.Inspect(fd.Body, func(n ast.Node) bool {
 			if w.recv != nil {
@@ -257,7 +270,7 @@ func extractCodecWith(p *packages.Package, fd *ast.FuncDecl, writer bool, paramV
 			if vs, ok := n.(*ast.ValueSpec); ok {
 				for _, nm := range vs.Names {
 					if o := w.info.Defs[nm]; o != nil {
-						if nt, ok := derefNamedStruct(o.Type()); ok && nt.Obj().Pkg() == p.Types {
+						if nt, ok := derefNamedStruct(o.Type()); ok && ownOrResult(nt) {
 							w.recv = o
 							return false
 						}
@@ -278,7 +291,7 @@ func extractCodecWith(p *packages.Package, fd *ast.FuncDecl, writer bool, paramV
 				if _, ok := rhs.(*ast.CompositeLit); ok || isNew {
 					if id, ok := as.Lhs[0].(*ast.Ident); ok {
 						if o := w.info.Defs[id]; o != nil {
-							if nt, ok := derefNamedStruct(o.Type()); ok && nt.Obj().Pkg() == p.Types {
+							if nt, ok := derefNamedStruct(o.Type()); ok && ownOrResult(nt) {
 								w.recv = o
 								return false
 							}
